@@ -226,7 +226,68 @@ impl Drop for Recorded {
 }
 
 type STr = UnboundedChannel<ClientMessage<u64>, Response<u64>>;
-type CTr = UnboundedChannel<Response<u64>, ClientMessage<u64>>;
+type RawCTr = UnboundedChannel<Response<u64>, ClientMessage<u64>>;
+
+/// What a dispatch wrote into its link (span ids raw; canonicalised when printed).
+#[derive(Clone, Debug)]
+enum Wire {
+    Req { id: u64, dl: u64, tr: u64, sid: u64, body: u64 },
+    Cancel { id: u64, tr: u64, sid: u64 },
+}
+
+/// A tap on the client's end of the real `unbounded()` transport: every call is forwarded
+/// unchanged; successful writes are noted.
+struct Tap {
+    inner: RawCTr,
+    base: Instant,
+    log: Rc<RefCell<Vec<Wire>>>,
+}
+
+impl Stream for Tap {
+    type Item = Result<Response<u64>, tarpc::transport::channel::ChannelError>;
+    fn poll_next(mut self: Pin<&mut Self>, cx: &mut Context<'_>) -> Poll<Option<Self::Item>> {
+        Pin::new(&mut self.inner).poll_next(cx)
+    }
+}
+
+impl futures::Sink<ClientMessage<u64>> for Tap {
+    type Error = tarpc::transport::channel::ChannelError;
+    fn poll_ready(mut self: Pin<&mut Self>, cx: &mut Context<'_>) -> Poll<Result<(), Self::Error>> {
+        Pin::new(&mut self.inner).poll_ready(cx)
+    }
+    fn start_send(mut self: Pin<&mut Self>, item: ClientMessage<u64>) -> Result<(), Self::Error> {
+        let w = match &item {
+            ClientMessage::Request(r) => Some(Wire::Req {
+                id: r.id,
+                dl: ms_since(self.base, r.context.deadline),
+                tr: trace_num(&r.context.trace_context),
+                sid: u64::from(r.context.trace_context.span_id),
+                body: r.message,
+            }),
+            ClientMessage::Cancel { trace_context, request_id } => Some(Wire::Cancel {
+                id: *request_id,
+                tr: trace_num(trace_context),
+                sid: u64::from(trace_context.span_id),
+            }),
+            _ => None,
+        };
+        let r = Pin::new(&mut self.inner).start_send(item);
+        if r.is_ok() {
+            if let Some(w) = w {
+                self.log.borrow_mut().push(w);
+            }
+        }
+        r
+    }
+    fn poll_flush(mut self: Pin<&mut Self>, cx: &mut Context<'_>) -> Poll<Result<(), Self::Error>> {
+        Pin::new(&mut self.inner).poll_flush(cx)
+    }
+    fn poll_close(mut self: Pin<&mut Self>, cx: &mut Context<'_>) -> Poll<Result<(), Self::Error>> {
+        Pin::new(&mut self.inner).poll_close(cx)
+    }
+}
+
+type CTr = Tap;
 type Dispatch = client::RequestDispatch<u64, u64, CTr>;
 type Srv = Requests<BaseChannel<u64, u64, STr>>;
 type CallFut = Pin<Box<dyn Future<Output = Result<u64, RpcError>>>>;
@@ -242,6 +303,12 @@ struct Node {
     dispatch: Option<Pin<Box<Dispatch>>>,
     dwaker: TaskWaker,
     dfinished: bool,
+    /// what the dispatch wrote since the log was last taken
+    wire: Rc<RefCell<Vec<Wire>>>,
+    /// request id -> raw span id seen on this link (for canonical naming)
+    sid_of: Vec<(u64, u64)>,
+    /// span ids of the contexts handed to `call` on this node's client
+    caller_spans: Rc<RefCell<Vec<u64>>>,
     server: Option<Pin<Box<Srv>>>,
     swaker: TaskWaker,
     sover: bool,
@@ -306,6 +373,9 @@ fn outcome(r: &Result<u64, RpcError>) -> String {
 fn is_event(o: &str) -> bool {
     if o.starts_with("KCall ") {
         return !o.ends_with("Client.CPending");
+    }
+    if o.starts_with("KWire ") {
+        return !o.ends_with(" []");
     }
     if o.starts_with("KDisp ") {
         return !o.ends_with("Client.DPending");
@@ -389,7 +459,41 @@ impl World {
         let waker = nd.dwaker.waker.clone();
         let mut cx = Context::from_waker(&waker);
         let d = nd.dispatch.as_mut().unwrap();
-        match catch_unwind(AssertUnwindSafe(|| d.as_mut().poll(&mut cx))) {
+        nd.wire.borrow_mut().clear();
+        let r = catch_unwind(AssertUnwindSafe(|| d.as_mut().poll(&mut cx)));
+        // the span id drawn for a request is named after the request id - unless it is not a
+        // fresh draw: the caller's own span id (or none), or one already used on this link
+        let written: Vec<Wire> = std::mem::take(&mut *nd.wire.borrow_mut());
+        let mut shown: Vec<String> = vec![];
+        for m in &written {
+            match m {
+                Wire::Req { id, dl, tr, sid, body } => {
+                    let reused_caller = *sid == 0 || nd.caller_spans.borrow().contains(sid);
+                    let reused_wire = nd.sid_of.iter().any(|(i2, s2)| *i2 != *id && *s2 == *sid);
+                    if !nd.sid_of.iter().any(|(i2, _)| *i2 == *id) {
+                        nd.sid_of.push((*id, *sid));
+                    }
+                    let name = if reused_caller {
+                        888_888
+                    } else if reused_wire {
+                        777_777
+                    } else {
+                        *id
+                    };
+                    if reused_caller || reused_wire {
+                        self.tags.insert("SPAN-REUSED".into());
+                    }
+                    shown.push(format!("WReq {id} {dl} {tr} {name} {body}"));
+                }
+                Wire::Cancel { id, tr, sid } => {
+                    let name = nd.sid_of.iter().find(|(_, s2)| *s2 == *sid).map(|(i2, _)| *i2).unwrap_or(999_999);
+                    shown.push(format!("WCancel {id} {tr} {name}"));
+                    self.tags.insert(format!("wire-cancel@node{}", i + 1));
+                }
+            }
+        }
+        o.push(format!("KWire {i} {}", coq_list(&shown)));
+        match r {
             Err(_) => {
                 o.push("KPanic".into());
                 self.tags.insert("PANIC".into());
@@ -477,8 +581,10 @@ impl World {
             let fut: Pin<Box<dyn Future<Output = ()>>> = if i + 1 < self.n {
                 // the real async block: the nested call with the context of the request
                 let c = self.nodes[i + 1].client.clone();
+                let spans = self.nodes[i + 1].caller_spans.clone();
                 Box::pin(ifr.execute(serve(move |ctx: context::Context, req: u64| Recorded {
                     inner: Box::pin(async move {
+                        spans.borrow_mut().push(u64::from(ctx.trace_context.span_id));
                         c.call(ctx, req)
                             .await
                             .map_err(|e| ServerError::new(io::ErrorKind::Other, e.to_string()))
@@ -622,14 +728,18 @@ pub fn run_impl(s: &Script) -> (Vec<Vec<String>>, Vec<String>) {
     let n = s.depth;
     let mut nodes = vec![];
     for _ in 0..n {
-        let (ctx, stx) = tarpc::transport::channel::unbounded();
-        let nc = client::new::<u64, u64, _>(client::Config::default(), ctx);
+        let (ctx, stx): (RawCTr, STr) = tarpc::transport::channel::unbounded();
+        let wire = Rc::new(RefCell::new(vec![]));
+        let nc = client::new::<u64, u64, _>(client::Config::default(), Tap { inner: ctx, base, log: wire.clone() });
         let srv: Srv = BaseChannel::with_defaults(stx).requests();
         nodes.push(Node {
             client: nc.client,
             dispatch: Some(Box::pin(nc.dispatch)),
             dwaker: TaskWaker::new(),
             dfinished: false,
+            wire,
+            sid_of: vec![],
+            caller_spans: Rc::new(RefCell::new(vec![])),
             server: Some(Box::pin(srv)),
             swaker: TaskWaker::new(),
             sover: false,
